@@ -3,7 +3,9 @@ shipped TextQueryTestBackend, report the result list / raised exception, backend
 collection order) and, as the oracle's data, a *fresh* conversion (new backend, new pipeline, newly parsed
 rule) of every rule on its own.
 
-case = {"rules": [rule...], "pipe": bool, "fmt": "default"|"test", "collect": bool, "fcs": bool}
+case = {"rules": [rule...], "pipe": False|True|"state", "fmt": "default"|"test"|"state", "collect": bool, "fcs": bool}
+ detection rules may carry "prod" (logsource product), "gate" (logsource service: strict | gstate | gapplied) and
+ "sf" (field name src | dst) for the pipeline "state", whose items decide on per-rule pipeline state
  detection rule   {"k": "d", "conds": [c...], "form": "list"|"and"|"or"|"1of", "stage": "ok"|"pipe"|"fin"|"crash", "fld": 0..3}
       c in "ok" | "gok" (two comparisons) | "ph" (unresolved placeholder) | "gph" (group: fine comparison, then placeholder)
            | "type" (keyword boolean) | "cond" (condition names a missing detection); prefix "n" = used below a NOT
@@ -18,10 +20,11 @@ from sigma.backends.test import TextQueryTestBackend
 from sigma.exceptions import SigmaError, SigmaTransformationError
 from sigma.processing.pipeline import ProcessingItem, ProcessingPipeline, QueryPostprocessingItem
 from sigma.processing.transformations import (FieldMappingTransformation, RuleFailureTransformation,
-                                              SetStateTransformation)
+                                              SetStateTransformation, StrictFieldMappingFailure)
 from sigma.processing.transformations.base import PreprocessingTransformation
 from sigma.processing.postprocessing import EmbedQueryTransformation, QueryPostprocessingTransformation
-from sigma.processing.conditions import RuleAttributeCondition
+from sigma.processing.conditions import (RuleAttributeCondition, LogsourceCondition, RuleProcessingStateCondition,
+                                         RuleProcessingItemAppliedCondition)
 
 FIELDS = ["fieldA", "f", "fieldC", "g h"]
 
@@ -54,7 +57,7 @@ def rule_doc(i, r, names, force_nogen=False):
                                 "condition": {"gte": 2}}}
     det = {}
     conds = []
-    fld = FIELDS[r.get("fld", 0)]
+    fld = r.get("sf") or FIELDS[r.get("fld", 0)]
     for k, c in enumerate(r["conds"]):
         sel = "s%d" % k
         neg = c.startswith("n")       # the selection is used below a NOT
@@ -86,14 +89,34 @@ def rule_doc(i, r, names, force_nogen=False):
     if any(c.startswith("not ") for c in conds) and form != "list" and len(conds) > 1:
         cond = " and ".join(conds)
     det["condition"] = cond
-    return {"title": "R%d" % i, "name": name, "logsource": {"category": "test"}, "detection": det}
+    ls = {"category": "test"}
+    if r.get("prod"):
+        ls["product"] = r["prod"]
+    if r.get("gate"):
+        ls["service"] = r["gate"]
+    return {"title": "R%d" % i, "name": name, "logsource": ls, "detection": det}
 
 
 def make_pipeline(case, names):
     if not case.get("pipe"):
         return None
-    items = [ProcessingItem(FieldMappingTransformation({"f": ["f1", "f2"]})),
-             ProcessingItem(SetStateTransformation("index", "win"))]
+    if case["pipe"] == "state":
+        # every failure / success decision below reads per-rule pipeline state (field mapping tracking, state
+        # dictionary, applied-item tracking) that ProcessingPipeline.apply resets for each rule
+        alpha = lambda: [LogsourceCondition(product="alpha")]
+        items = [ProcessingItem(FieldMappingTransformation({"src": "dst"}), rule_conditions=alpha(), identifier="map_alpha"),
+                 ProcessingItem(SetStateTransformation("index", "A"), rule_conditions=alpha(), identifier="set_alpha"),
+                 ProcessingItem(StrictFieldMappingFailure(), rule_conditions=[LogsourceCondition(service="strict")],
+                                identifier="strict"),
+                 ProcessingItem(RuleFailureTransformation("state gate"), identifier="gate_state",
+                                rule_conditions=[LogsourceCondition(service="gstate"),
+                                                 RuleProcessingStateCondition("index", "A")]),
+                 ProcessingItem(RuleFailureTransformation("applied gate"), identifier="gate_applied",
+                                rule_conditions=[LogsourceCondition(service="gapplied"),
+                                                 RuleProcessingItemAppliedCondition("map_alpha")])]
+    else:
+        items = [ProcessingItem(FieldMappingTransformation({"f": ["f1", "f2"]})),
+                 ProcessingItem(SetStateTransformation("index", "win"))]
     post = [QueryPostprocessingItem(EmbedQueryTransformation(prefix="<", suffix=">"))]
     for i, r in enumerate(case["rules"]):
         cond = [RuleAttributeCondition("name", names[i])]
